@@ -33,11 +33,13 @@ THEOREMS = [
     "PV.C16.bytes_repr_eq_py",
     "PV.C16.toString_eq",
     "PV.C16.bytes_toString_eq",
+    "PV.C16.named_layout_spec",
+    "PV.C16.named_repr_decodes",
 ]
 TRUSTED = [
     "Lean 4.33.0 kernel; axioms limited to propext, Classical.choice, Quot.sound",
     "hand-written model lean/PV/C16/Model.lean of literal/src/escape.rs (choose_quote, UnicodeEscape, AsciiEscape, "
-    "Escape::changed/write_body, StrRepr, BytesRepr), tied to the code by the correspondence streams of this run",
+    "Escape::changed/write_body, StrRepr, BytesRepr incl. Display, AsciiEscape::new/named_repr_layout), tied to the code by the correspondence streams of this run",
     "rustpython_literal::char::is_printable (unic-ucd-category, Unicode 10 table) is a parameter of the model; the "
     "theorems hold for every printability function; the real table is compared with CPython's on every code point "
     "whose status is the same in Unicode 3.2 and 14 (stream printable-table)",
@@ -45,6 +47,8 @@ TRUSTED = [
     "lean/PV/C16/Spec.lean (partial Python literal decoder, CPython unicode_repr/bytes_repr) as the meaning of "
     "'Python literal' / 'Python repr'; validated against CPython 3.11.7 ast.literal_eval / repr on every run",
     "the real parser's decoding of the produced literal is observed (field rt), not modelled",
+    "named_repr_layout reads only name.len(): long names are a fabricated &str (dangling pointer, never read); name "
+    "lengths stay <= isize::MAX - 5, where the length checker's `as isize` casts are the identity",
     "tools/props/c16.py (generator, independent CPython oracle), harness/src/bin/pvh_c16.rs, lean/Drv/C16.lean",
 ]
 PARTIAL = []
@@ -65,12 +69,14 @@ LEVEL_NOTE = ("Trusted: Lean kernel (axioms propext/Classical.choice/Quot.sound 
               "fidelity as sampled by correspondence, the Unicode table behind is_printable (a parameter; compared "
               "with CPython on version-independent code points), Rust integer hex formatting, the Lean reference "
               "decoder/repr as validated against CPython, harness and generator. The isize overflow guard of the "
-              "layout (len = None) is modelled and covered by the theorems but cannot be exercised on real inputs.")
+              "layout (len = None) is exercised through named_repr_layout with a name length near isize::MAX (the "
+              "function only reads name.len(); the harness passes a length over a never-dereferenced pointer).")
 RULE = ("request lines (text or bytes x constructor) sent to both the real rustpython-literal crate and the Lean model; "
         "distinct = distinct request line; non-trivial = the value is non-empty")
 
 # ------------------------------------------------------------------ Python-side reference
 
+ISIZE_MAX = 2**63 - 1
 _OLD = unicodedata.ucd_3_2_0
 _NONPRINT = {"Cc", "Cf", "Cs", "Co", "Cn", "Zl", "Zp", "Zs"}
 
@@ -160,6 +166,61 @@ def oracle(req, out):
     if f.get("rt") != "ok":
         return f"the real parser does not decode the repr back to the value (rt={f.get('rt')})"
     nbytes = len(text.encode("utf-8"))
+
+    def other_text(key, what, judge):
+        """a second way of producing the repr (Display, AsciiEscape::new): `same`, or judged on its own"""
+        d = f.get(key)
+        if d == "same":
+            return None
+        if d is None:
+            return f"{what}: no answer"
+        try:
+            dtext = unhex(d).decode("utf-8")
+        except Exception:  # noqa: BLE001
+            return f"{what} is not UTF-8"
+        fail = judge(dtext)
+        return f"{what}: {fail}" if fail else None
+
+    def lit_is(value):
+        def judge(t):
+            try:
+                v = _lit_eval(t)
+            except Exception as e:  # noqa: BLE001
+                return f"not a Python literal: {e!r}"
+            return None if (type(v) is type(value) and v == value) else "evaluates to a different value"
+        return judge
+    if op == "named":
+        b = unhex(ws[1])
+        name_len = int(ws[2])
+        try:
+            v = _lit_eval(text)
+        except Exception as e:  # noqa: BLE001
+            return f"repr is not a Python literal: {e!r}"
+        if not (isinstance(v, bytes) and v == b):
+            return "repr evaluates (ast.literal_eval) to a different value"
+        fail = other_text("fmt", "Display of BytesRepr", lit_is(b))
+        if fail:
+            return fail
+        # the text to be produced is  name + "(" + bytes repr + ")"
+        whole = name_len + 2 + len(repr(b))
+        if f["len"] == "none":
+            if whole <= ISIZE_MAX:
+                return (f"named layout announces no length although name({name_len}) + parentheses + repr = {whole} "
+                        f"fits isize")
+            return None
+        if whole > ISIZE_MAX:
+            return f"named layout announces length {f['len']} although the whole text ({whole}) exceeds isize::MAX"
+        if int(f["len"]) + 3 != nbytes:
+            return f"announced length {f['len']} + 3 != produced length {nbytes}"
+        fail = _judge_bytes(b, text)
+        if fail:
+            return fail
+        if f["q"] != ("d" if _py_quote(b, 39, 34) == '"' else "s"):
+            return "layout quote differs from Python's choice"
+        body_changed = text[2:-1].encode("latin-1", "replace") != b
+        if (f["changed"] == "true") != body_changed:
+            return f"changed()={f['changed']} but body {'differs from' if body_changed else 'equals'} the source"
+        return None
     if op in ("reprs", "reprq"):
         s = unhex(ws[-2]).decode("utf-8")
         plist = _plist(ws[-1])
@@ -174,7 +235,7 @@ def oracle(req, out):
                 return "repr evaluates (ast.literal_eval) to a different value"
             if f["len"] != "none" and int(f["len"]) + 2 != nbytes:
                 return f"announced length {f['len']} + 2 != produced length {nbytes}"
-            return None
+            return other_text("fmt", "Display of StrRepr", lit_is(s))
         fail = _judge_text(s, text, _comparable(s, plist))
         if fail:
             return fail
@@ -197,8 +258,10 @@ def oracle(req, out):
                 dtext = unhex(d).decode("utf-8")
             except Exception:  # noqa: BLE001
                 return "Constant::Str display is not UTF-8"
-            return _judge_text(s, dtext, _comparable(s, plist))
-        return None
+            fail = _judge_text(s, dtext, _comparable(s, plist))
+            if fail:
+                return fail
+        return other_text("fmt", "Display of StrRepr", lambda t: _judge_text(s, t, _comparable(s, plist)))
     if op in ("reprb", "reprbq"):
         b = unhex(ws[-1])
         if op == "reprbq":
@@ -210,7 +273,7 @@ def oracle(req, out):
                 return "repr evaluates (ast.literal_eval) to a different value"
             if f["len"] != "none" and int(f["len"]) + 3 != nbytes:
                 return f"announced length {f['len']} + 3 != produced length {nbytes}"
-            return None
+            return other_text("fmt", "Display of BytesRepr", lit_is(b))
         fail = _judge_bytes(b, text)
         if fail:
             return fail
@@ -234,8 +297,11 @@ def oracle(req, out):
                 dtext = unhex(d).decode("utf-8")
             except Exception:  # noqa: BLE001
                 return "Constant::Bytes display is not UTF-8"
-            return _judge_bytes(b, dtext)
-        return None
+            fail = _judge_bytes(b, dtext)
+            if fail:
+                return fail
+        return (other_text("fmt", "Display of BytesRepr", lambda t: _judge_bytes(b, t))
+                or other_text("new", "AsciiEscape::new(b, repr_layout(b))", lambda t: _judge_bytes(b, t)))
     return None
 
 
@@ -441,6 +507,9 @@ def streams(ctx):
     corpus_b = [b"", b"hello", b"'hello'", b'"hello"', b"'\"hello", b"hello\n", b"\x00\xff", b"\\", b"\\'", b"it's",
                 b"\x7f", b"\x80", b"\t\r\n", b"~ ", bytes(range(256))]
     reqs = [rs(s) for s in corpus_t] + [f"reprb {hexs(b)}" for b in corpus_b]
+    reqs += [f"named {hexs(b)} {n}" for b in corpus_b for n in (9, ISIZE_MAX - 5 - len(repr(b)) + 3,
+                                                                 ISIZE_MAX - 5 - len(repr(b)) + 4)
+             if 0 <= n <= ISIZE_MAX - 5]
     for m in ("ps", "pd", "fs", "fd"):
         reqs += [f"reprq {m} {hexs(s)} {_pl(s, tab)}" for s in corpus_t]
         reqs += [f"reprbq {m} {hexs(b)}" for b in corpus_b]
@@ -474,6 +543,17 @@ def streams(ctx):
                       note="with_preferred_quote(Single|Double), with_forced_quote(Single|Double) over a reduced "
                            "alphabet; the oracle only asks for the round trip and the announced length",
                       nontrivial=nonempty))
+    # named_repr_layout: the layout of  name(b'...')  — ordinary names and names so long that the whole text
+    # crosses isize::MAX (the only way to reach the `len: None` exits of the layout loop)
+    nb = [b""] + [bytes(t) for n in (1, 2, 3) for t in itertools.product([39, 34, 92, 97, 10, 0, 255], repeat=n)
+                  if n < 3 or ctx.tier != "quick" or t[0] in (39, 34)]
+    name_lens = [0, 1, 9, 4096, 4097, 2**32] + [ISIZE_MAX - 5 - k for k in range(0, 20)]
+    reqs = [f"named {hexs(b)} {n}" for b in nb for n in name_lens]
+    out.append(Stream("named-layout", reqs, kind="exhaustive", exhaustive=True,
+                      note="AsciiEscape::new(b, named_repr_layout(b, name)): byte strings of <= 3 bytes over "
+                           "{', \", backslash, a, LF, NUL, 0xff} x name lengths 0, 1, 9 (bytearray), 4096/4097, 2^32 and "
+                           "isize::MAX-5-k for k < 20 (every position of the overflow border incl. the `stop` exit inside "
+                           "the loop and the exit after it)"))
     if not ctx.quick:
         t3 = list(_texts(ALPHABET[:3] + ["\n", "\x00", "a", "x", "0", "\x7f", "\xa0", "\xe9", "\u2028",
                                          "\ue000", "\U0001f600", "\U000e0001", "\U0010ffff"], 3))
